@@ -945,3 +945,190 @@ def mon_C18(ctx):
     if set(c for c in fin if fin[c]['state'] == 'defeated') != set(c.cid for c in E.defeated):
         ctx.bad('final-defeated-set-differs', TRUE)
     ctx.reach('audit-trail-walked')
+
+
+# ---------------------------------------------------------------------------------------------------
+# C18 (renderings): report, dump and json agree with the record and with one another, and rendering does not change the record
+
+import json as _json
+import re as _re
+
+_MARK = _re.compile(r'<([SR])(\d+)>')
+
+
+def _vkey(x):
+    "a printable identity of a value: equal values of one arithmetic get equal keys (a compact token without brackets)"
+    import hashlib
+    from symex.core import SymInt
+    def k(i):
+        if isinstance(i, SymInt):
+            return 'L%s+%d' % (sorted(i.lin.items()), i.c)
+        return str(i)
+    if hasattr(x, '_value'):
+        t = 'v:%s' % k(x._value)
+    elif hasattr(x, '_numerator'):
+        t = 'q:%s/%s' % (k(x._numerator), k(x._denominator))
+    else:
+        return str(x)
+    return 'V' + hashlib.sha1(t.encode()).hexdigest()[:12]
+
+
+def mon_C18r(ctx):
+    if ctx.exc is not None:
+        return
+    from symex import shims
+    E = ctx.E
+    R = E.erecord
+    symbolic = ctx.symbolic
+
+    def show(v):
+        return _vkey(v) if symbolic else str(v)
+
+    def norm(text):
+        if not symbolic:
+            return text
+        def rep(m):
+            obj = shims.MARKERS.get(m.group(0))
+            if m.group(1) == 'R':
+                return '<repr-used>'
+            return _vkey(obj) if obj is not None else '<unknown-marker>'
+        return _MARK.sub(rep, text)
+
+    def fingerprint():
+        out = []
+        for A in R['actions']:
+            row = [A['tag'], norm(A['msg']), A['round'], tuple(sorted(A.keys()))]
+            if 'cstate' in A:
+                for cid, s_ in sorted(A['cstate'].items()):
+                    row.append((cid, s_['state'], s_['code'], tuple(sorted(s_.keys())), show(s_.get('vote')), show(s_.get('kf')), show(s_.get('quotient'))))
+                row.append((show(A['quota']), show(A['votes']), show(A.get('nt_votes')), show(A.get('residual')), show(A.get('surplus'))))
+            out.append(tuple(row))
+        return (tuple(out), tuple(sorted(k for k in R.keys())), show(R.get('quota')), R.get('seats'), str(R.get('nballots')))
+    fp0 = fingerprint()
+    try:
+        j1 = norm(E.json())
+        d1 = norm(E.dump())
+        r1 = norm(E.report())
+        j2 = norm(E.json())
+        r2 = norm(E.report())
+        d2 = norm(E.dump())
+    except Exception as ex:      # noqa
+        from symex import core
+        if isinstance(ex, core.HarnessError):
+            raise
+        ctx.bad('rendering-raised:%s' % type(ex).__name__, TRUE)
+        return
+    ctx.reach('renderings-compared')
+    if fingerprint() != fp0:
+        ctx.bad('rendering-changed-the-record', TRUE)
+    if j1 != j2 or r1 != r2 or d1 != d2:
+        ctx.bad('rendering-depends-on-rendering-order', TRUE)
+    if '<repr-used>' in j1 + d1 + r1:
+        ctx.bad('rendering-uses-repr-instead-of-printed-form', TRUE)
+    # --- json
+    try:
+        J = _json.loads(j1)
+    except ValueError:
+        ctx.bad('json-invalid', TRUE)
+        return
+    acts = R['actions']
+    ja = J.get('actions')
+    if not isinstance(ja, list) or len(ja) != len(acts):
+        ctx.bad('json-action-count', TRUE)
+        return
+    for A, B in zip(acts, ja):
+        if (A['tag'], norm(A['msg']), A['round']) != (B.get('tag'), B.get('msg'), B.get('round')):
+            ctx.bad('json-action-differs', TRUE)
+            break
+        if A['tag'] == 'log':
+            continue
+        for cid, s_ in A['cstate'].items():
+            t_ = B['cstate'].get(str(cid))
+            if t_ is None or t_.get('state') != s_['state'] or t_.get('code') != s_['code']:
+                ctx.bad('json-status-differs', TRUE)
+                break
+            for f in ('vote', 'kf', 'quotient'):
+                if (f in s_) != (f in t_) or (f in s_ and s_[f] is not None and t_[f] != show(s_[f])):
+                    ctx.bad('json-value-differs:%s' % f, TRUE)
+        for f in ('quota', 'votes', 'nt_votes', 'residual', 'surplus'):
+            if (f in A) != (f in B) or (f in A and A[f] is not None and B[f] != show(A[f])):
+                ctx.bad('json-value-differs:%s' % f, TRUE)
+    if J.get('seats') != R['seats'] or str(J.get('nballots')) != str(R['nballots']) or J.get('quota') != show(R['quota']):
+        ctx.bad('json-header-differs', TRUE)
+    # --- dump
+    rows = d1.split('\n')
+    if rows[-1] != '':
+        ctx.bad('dump-no-trailing-newline', TRUE)
+    rows = rows[:-1]
+    hdr = rows[0].split('\t')
+    if len(rows) != len(acts) + 1:
+        ctx.bad('dump-row-count', TRUE)
+    else:
+        ecids = R['ecids']
+        for A, row in zip(acts, rows[1:]):
+            cells = row.split('\t')
+            if A['tag'] in ('round', 'log', 'iterate'):
+                if cells[:2] != [str(A['round']), A['tag']] or '\t'.join(cells[2:]) != norm(A['msg']):
+                    ctx.bad('dump-log-row-differs', TRUE)
+                continue
+            if len(cells) != len(hdr):
+                ctx.bad('dump-column-count', TRUE)
+                continue
+            want_r = 'X' if A['tag'] == 'end' else str(A['round'])
+            if cells[0] != want_r or cells[1] != A['tag'] or cells[2] != show(A['quota']):
+                ctx.bad('dump-row-head-differs', TRUE)
+            per = (len(hdr) - [i for i, h in enumerate(hdr) if h.endswith('.name')][0]) // max(len(ecids), 1) if ecids else 0
+            first = [i for i, h in enumerate(hdr) if h.endswith('.name')][0] if ecids else len(hdr)
+            for k, cid in enumerate(ecids):
+                base = first + k * per
+                s_ = A['cstate'][cid]
+                if cells[base] != R['cdict'][cid]['name'] or cells[base + 1] != s_['code']:
+                    ctx.bad('dump-status-differs', TRUE)
+                for off, hname in enumerate(hdr[base + 2:base + per]):
+                    f = hname.split('.')[-1]
+                    if f in s_ and s_[f] is not None and cells[base + 2 + off] != show(s_[f]):
+                        ctx.bad('dump-value-differs:%s' % f, TRUE)
+    # --- report: every status line of every action block shows the record's status and tally
+    blocks = r1.split('Action: ')
+    nonlog = [A for A in acts if A['tag'] not in ('log', 'round')]
+    if len(blocks) - 1 != len(nonlog):
+        ctx.bad('report-action-count', TRUE)
+    else:
+        names = {}
+        for cid, d_ in R['cdict'].items():
+            names.setdefault(d_['name'], []).append(cid)
+        for A, blk in zip(nonlog, blocks[1:]):
+            if not blk.startswith(norm(A['msg'])):
+                ctx.bad('report-action-message-differs', TRUE)
+                continue
+            for ln in blk.split('\n')[1:]:
+                m = _re.match(r'\t(Elected|Pending|Hopeful|Defeated): +(.*) \((.*)\)$', ln)
+                if not m:
+                    continue
+                kind, nm, val = m.group(1), m.group(2), m.group(3)
+                if kind == 'Defeated' and val == show(E.V0):
+                    # the report groups defeated candidates without votes on one line and prints the constant zero
+                    for nm_ in nm.split(', '):
+                        for cid in names.get(nm_, []):
+                            s_ = A['cstate'][cid]
+                            if s_['state'] == 'defeated':
+                                ctx.bad('report-shows-zero-for-defeated-candidate-with-votes', num(ctx, s_['vote'])[0] != 0)
+                    if not all(any(A['cstate'][cid]['state'] == 'defeated' for cid in names.get(nm_, [])) for nm_ in nm.split(', ')):
+                        ctx.bad('report-status-line-differs', TRUE)
+                    continue
+                if ', ' in nm and kind == 'Defeated':
+                    continue
+                cids = names.get(nm)
+                if not cids:
+                    ctx.bad('report-names-unknown-candidate', TRUE)
+                    continue
+                ok = False
+                for cid in cids:
+                    s_ = A['cstate'][cid]
+                    st = {'Elected': 'elected', 'Pending': 'elected', 'Hopeful': 'hopeful', 'Defeated': 'defeated'}[kind]
+                    shown = s_.get('quotient') if ctx.rule == 'qpq' else s_.get('vote')
+                    if s_['state'] == st and shown is not None and val == show(shown) and (kind != 'Pending' or s_.get('pending')):
+                        ok = True
+                if not ok:
+                    ctx.bad('report-status-line-differs', TRUE)
+                    ctx.extra.setdefault('dbg', []).append((ln, [(cid, A['cstate'][cid]['state'], show(A['cstate'][cid].get('vote'))) for cid in cids], A['tag']))
